@@ -1,6 +1,7 @@
 package c13dst
 
 import (
+	"bytes"
 	"fmt"
 )
 
@@ -85,6 +86,16 @@ type Expect struct {
 	ExposedCmd   string
 	Events       []string // coverage: which rules of the property this history exercised
 	Wrote        map[string]int
+	// ProgExtra: bytes beyond a-z and "\n" that the PROGRAM itself writes to the shared stdout in
+	// this history: the separator, the double quote and the leading space of CSV/TSV rows, "\r"
+	// in CRLF newline mode.  (A history that can run in CSV mode has no relay 1, whose
+	// terminator is the comma.)
+	ProgExtra string
+	// Stderr: the marked lines the program writes to "/dev/stderr", in order.
+	Stderr []byte
+	// CSVRowDests: destination keys that received at least one row written by print in CSV/TSV
+	// output mode (the statements that mode changes).
+	CSVRowDests map[string]int
 }
 
 type stream struct {
@@ -120,8 +131,19 @@ type Options struct {
 
 // Run executes the model over a history.
 func Run(h *History, opt Options) *Expect {
-	e := &Expect{Files: map[string][]byte{}, Snaps: map[int]SnapExpect{}, Wrote: map[string]int{}}
+	e := &Expect{Files: map[string][]byte{}, Snaps: map[int]SnapExpect{}, Wrote: map[string]int{}, CSVRowDests: map[string]int{}}
 	e.End = End{Kind: "normal", At: -1}
+	mode := h.Mode
+	extra := func(cs string) {
+		for i := 0; i < len(cs); i++ {
+			if !bytes.Contains([]byte(e.ProgExtra), []byte{cs[i]}) {
+				e.ProgExtra += cs[i : i+1]
+			}
+		}
+	}
+	if h.CRLF {
+		extra("\r")
+	}
 	for _, k := range h.Pre {
 		for i := 0; i < h.NFiles; i++ {
 			if (Dest{File, i}).Key() == k {
@@ -250,13 +272,47 @@ loop:
 		op := h.Ops[i]
 		key := op.Dest.Key()
 		switch op.Kind {
+		case SetMode:
+			old := mode
+			mode = op.Form
+			if mode == "none" {
+				mode = ModeNone
+			}
+			if old != mode {
+				event("output-mode-switch:" + old + ">" + mode)
+			}
 		case Print:
-			line := LineBytes(op, curRec(i))
+			line := LineBytes(op, curRec(i), mode, h.CRLF)
 			e.Wrote[key] += len(line)
 			if len(line) > 65536 {
 				event("single-write>64KiB:" + string(op.Dest.Kind))
 			}
+			if mode != ModeNone && (op.Form == FPrint1 || op.Form == FPrint2 || op.Form == FPrint3Q) {
+				e.CSVRowDests[key]++
+				event(mode + "-row:" + string(op.Dest.Kind))
+				if op.Form == FPrint3Q {
+					event(mode + "-quoted-value")
+				}
+				if len(line) > 4096 {
+					event(mode + "-row>4KiB") // larger than the cached CSV writer's buffer
+				}
+				if op.Dest.Kind == Stdout {
+					extra(string([]byte{SepOf(mode)}) + "\" ")
+				}
+			}
+			if h.CRLF && bytes.Contains(line, []byte("\r\n")) {
+				event("crlf-newline:" + string(op.Dest.Kind))
+			}
+			if op.Dest.Kind == Stderr {
+				touchesStdout("opening /dev/stderr") // goawk flushes stdout before it resolves the name
+				e.Stderr = append(e.Stderr, line...)
+				event("line-to-/dev/stderr")
+				continue
+			}
 			if op.Dest.Kind == Stdout {
+				if op.Name != "" {
+					event("stdout-by-name:" + op.Name)
+				}
 				touchesStdout("print to stdout")
 				writesStdout("print to stdout", 0)
 				if have := len(e.Prods[ProdProg]); opt.FailStdout && have+len(line) > opt.FailAt {
